@@ -5,6 +5,7 @@ import (
 	"encoding/json"
 	"errors"
 	"fmt"
+	"strings"
 	"sync"
 
 	"github.com/elementsproject/peerswap/log"
@@ -988,9 +989,11 @@ func (s *SwapService) lockSwap(swapId, channelId string, fsm *SwapStateMachine) 
 	s.Lock()
 	defer s.Unlock()
 
-	// Check if we already have an active swap on the same channel
+	// Check if we already have an active swap on the same channel. Short
+	// channel ids are written with 'x' (CLN) or ':' (LND) as separator, both
+	// spellings name the same channel.
 	for id, swap := range s.activeSwaps {
-		if swap.Data.GetScid() == channelId {
+		if sameChannel(swap.Data.GetScid(), channelId) {
 			return ActiveSwapError{channelId: channelId, swapId: id}
 		}
 	}
@@ -998,6 +1001,12 @@ func (s *SwapService) lockSwap(swapId, channelId string, fsm *SwapStateMachine) 
 	// Add active swap
 	s.activeSwaps[swapId] = fsm
 	return nil
+}
+
+// sameChannel compares two short channel ids irrespective of the separator
+// ('x' or ':') they are written with.
+func sameChannel(a, b string) bool {
+	return strings.ReplaceAll(a, ":", "x") == strings.ReplaceAll(b, ":", "x")
 }
 
 type ActiveSwapError struct {
